@@ -429,11 +429,9 @@ func keyExchange(klen int, ida, idb []byte, pri *PrivateKey, pub *PublicKey, rpr
 	// GM/T 0003.3: field elements enter KDF and the confirmation hashes as fixed 32-byte strings,
 	// and the initiator's ephemeral point R_A comes before the responder's R_B for both parties.
 	vxBuf, vyBuf := keFixed32(vx), keFixed32(vy)
-	k, ok := kdf(klen, vxBuf, vyBuf, za, zb)
-	if !ok {
-		err = errors.New("kdf: zero key")
-		return
-	}
+	// GM/T 0003.3 has no all-zero check on the shared key (that check belongs to encryption, GM/T 0003.4):
+	// a short key may legitimately consist of zero bytes.
+	k, _ = kdf(klen, vxBuf, vyBuf, za, zb)
 	rax, ray, rbx, rby := rpri.X, rpri.Y, rpub.X, rpub.Y
 	if !thisISA {
 		rax, ray, rbx, rby = rpub.X, rpub.Y, rpri.X, rpri.Y
